@@ -159,12 +159,15 @@ def build_exclusion(mir, sym, eng, cube):
     """JsrVersionResolver::get_for_package: the cutoff applies unless the package is excluded by name or by prefix"""
     P = 2
     date_p = sym.bool('date_p'); date = sym.bv('date', 16)
-    exact = sym.bool('excluded_exact')
+    # the exact-name exclusion set holds one arbitrary name: it may equal the package name, or merely be a prefix of it
+    ex_p = sym.bool('exact_entry_present'); ex_eq = sym.bool('exact_entry_equals_name'); ex_sw = sym.bool('name_starts_with_exact_entry')
+    exact = z3.And(ex_p, ex_eq)
     pre_p = [sym.bool(f'prefix{k}_p') for k in range(P)]; pre_m = [sym.bool(f'prefix{k}_matches') for k in range(P)]
-    eng.cfg.update(N=1, pkg_excluded_exact=exact, starts_with={('pkg', f'prefix{k}'): pre_m[k] for k in range(P)})
+    sw = {('pkg', f'prefix{k}'): pre_m[k] for k in range(P)}; sw[('pkg', 'exact0')] = ex_sw
+    eng.cfg.update(N=1, str_eq={('pkg', 'exact0'): ex_eq}, starts_with=sw)
     st = mir.structs
     prefixes = SeqV([(pre_p[k], SymStr(f'prefix{k}')) for k in range(P)])
-    opts = Agg([{'date': opt(date_p, Agg([date])), 'exclude_jsr_pkgs': Opaque('set'), 'exclude_jsr_pkg_prefixes': prefixes}[k] for k in st['NewestDependencyDateOptions']])
+    opts = Agg([{'date': opt(date_p, Agg([date])), 'exclude_jsr_pkgs': SeqV([(ex_p, SymStr('exact0'))]), 'exclude_jsr_pkg_prefixes': prefixes}[k] for k in st['NewestDependencyDateOptions']])
     resolver = Agg([opts])
     info = Opaque('package info')
     r = eng.call(mir.find('JsrVersionResolver', 'get_for_package'), [ref_to(resolver, 'vr'), ref_to(SymStr('pkg'), 'name'), ref_to(info, 'info')], TRUE)
@@ -177,14 +180,14 @@ def build_exclusion(mir, sym, eng, cube):
         def to_json(self, m): return {'packages': True, 'exclusion_only': True}
     class OpX:
         def decode(self, m): return {'cutoff_applies': ev(m, has)}
-        def op_json(self, m): return {'op': 'get_for_package', 'date': ev(m, date) if ev(m, date_p) else None, 'exact': ev(m, exact), 'prefixes': [[ev(m, pre_p[k]), ev(m, pre_m[k])] for k in range(P)]}
+        def op_json(self, m): return {'op': 'get_for_package', 'date': ev(m, date) if ev(m, date_p) else None, 'exact': ev(m, ex_p), 'exact_equals': ev(m, ex_eq), 'exact_is_prefix': ev(m, ex_sw), 'prefixes': [[ev(m, pre_p[k]), ev(m, pre_m[k])] for k in range(P)]}
     ops, world = [OpX()], W()
     qs = [Query('cutoff-applies-unless-package-excluded', z3.Or(has != exp, z3.And(has, val != date)), ops=ops, world=world),
           Query('witness-prefix-exclusion', z3.And(date_p, z3.Not(has), z3.Not(exact)), expect='sat', kind='witness', ops=ops, world=world)]
     for fname in sorted({f for f, _ in eng.exceeded}):
         qs.insert(0, Query('unwinding:' + fname.split('>::')[-1], Or(gd for f, gd in eng.exceeded if f == fname), kind='unwind'))
     qs.insert(0, Query('no-panic', Or(gd for _, gd in eng.panics)))
-    return eng, world, list(sym.cons), qs
+    return eng, world, list(sym.cons) + [z3.Implies(ex_eq, ex_sw)], qs
 
 def differential(mir, seed, count):
     """encoder validation: concrete version worlds through the interpreter and through the real crate"""
